@@ -232,6 +232,8 @@ def check_blind(case):
             r = torch.zeros_like(x)
         elif kind == "rand":
             r = _randn(g, x.shape, dt, 100.0)
+        elif kind == "nonfinite":  # +inf / nan at the masked positions (known finding KF-C20-4 for values)
+            r = torch.where(_randn(g, x.shape, dt) > 0, torch.tensor(float("inf"), dtype=dt), torch.tensor(float("nan"), dtype=dt))
         elif kind == "big":
             r = torch.where(_randn(g, x.shape, dt) > 0, torch.tensor(big, dtype=dt), torch.tensor(-big, dtype=dt))
         else:
@@ -523,6 +525,14 @@ def cases_blind(ctx):
                         n = c()
                         m = (n - 1) // len(_KINDS)  # kinds cycle fastest; (which, dtype) rotate through their 6 combinations per mask pattern
                         yield {"att": spec, "bat": bat, "T": T, "dim": dim, "mask": ms, "seed": c.seed(), "f64": m % 2 == 0, "kind": kind, "which": _WHICH[m % 3]}
+    # non-finite replacements: masked KEYS must not matter at all; masked VALUES are the known finding KF-C20-4
+    for spec in _flavours(ctx):
+        if spec["fl"] == "mha":
+            continue
+        for T in (2, 3):
+            for ms in _mask_starts(T, none=False)[:2]:
+                for which in ("k", "v"):
+                    yield {"att": spec, "bat": [2], "T": T, "dim": 0, "mask": ms, "seed": c.seed(), "f64": True, "kind": "nonfinite", "which": which}
     if not ctx.quick:
         rng = random.Random(ctx.seed + 2002)
         for i in range(6000):
@@ -692,7 +702,17 @@ FINDINGS = [
                          "bias": [False, True, False, False], "d_v": None, "out": None}, "seed": 1}},
     {"id": "KF-C20-3", "property": "C20", "clause": "C20.mha.compose", "what": _MSK, "class": _MSK_CLASS, "witness": _W_MSK},
 ]
-KNOWN_MATCH = {"KF-C20-1": _negdim_class, "KF-C20-2": _bias_class, "KF-C20-3": _mha_mask_class}
+def _nonfinite_value_class(case, msg=""):
+    """masked positions of the VALUE hold inf / nan (single-head flavours: the weights there are exact zeros, 0 * inf = nan)"""
+    return case.get("kind") == "nonfinite" and "v" in case.get("which", "kv") and _masked_somewhere(case)
+
+
+FINDINGS.append({"id": "KF-C20-4", "property": "C20", "clause": "C20.soft.blind",
+                 "what": "a non-finite VALUE (inf, nan) at a masked position turns the output into nan: the masked weights are exact zeros but are multiplied into the values (0 * inf = nan); "
+                         "masked keys are handled (their scores are overwritten with -inf)",
+                 "class": "values at masked positions replaced by inf / nan",
+                 "witness": {"att": {"fl": "dot", "qs": 1, "ks": 1, "vs": 1, "scale": 1.0}, "bat": [1], "T": 2, "dim": 0, "mask": 0, "seed": 1, "f64": True, "kind": "nonfinite", "which": "v"}})
+KNOWN_MATCH = {"KF-C20-1": _negdim_class, "KF-C20-2": _bias_class, "KF-C20-3": _mha_mask_class, "KF-C20-4": _nonfinite_value_class}
 # the same two defects seen through the other clauses (one record per clause because a known finding names one clause;
 # the relational clauses only see them when a wrongly normalised / wrongly masked score column is all -inf, i.e. NaN, or an exception)
 _W_MSK_ID = dict(_W_MSK, att=dict(_W_MSK["att"], vs=2, d_v=2, ident=True))
